@@ -211,6 +211,8 @@ class CType:
         self.tns = ''                       # target namespace of the schema document declaring a named type (Schema.add_type)
         self.ext_particle = ext_particle    # for deriv == 'extension': the particle added after the base content (rendering)
         self.own_attrs = None               # for derived types: attribute uses written in the derived type (rendering)
+        self.own_anyattr = None             # for derived types: the anyAttribute written in the derived type; `anyattr` is then the EFFECTIVE
+        self.has_own_wild = False           # {attribute wildcard} per Structures 3.4.2 (restriction: local only; extension: union with the base's)
     def to_json(self):
         c = self.content
         return {'name': self.name, 'content': None if c is None else (list(c) if isinstance(c, tuple) else c.to_json()),
@@ -230,6 +232,7 @@ class Schema:
         self.types = []         # named CTypes
         self.groups = {}        # name -> Particle (named model groups)
         self.imports = []       # other Schema objects (different target namespaces)
+        self.gattrs = []        # global attribute declarations (AttrUse; namespace = tns)
         self.includes = []      # Schema objects with the same target namespace
     def add_type(self, t):
         t.tns = self.tns; self.types.append(t); return t
@@ -243,6 +246,11 @@ class Schema:
         for s in self.all_schemas():
             for e in s.elements:
                 if e.key() == key: return e
+        return None
+    def find_global_attr(self, key):
+        for s in self.all_schemas():
+            for a in s.gattrs:
+                if (s.tns, a.name) == key: return a
         return None
     def find_type(self, ns, name):
         for s in self.all_schemas():
@@ -331,7 +339,8 @@ class Renderer:
         return s + '/>\n'
     def attrs(self, t, ind, own=None):
         s = ''.join(self.attr(a, ind) for a in (t.attrs if own is None else own))
-        if t.anyattr: s += '%s<xs:anyAttribute namespace="%s" processContents="%s"/>\n' % (ind, t.anyattr[0], t.anyattr[1])
+        w = t.own_anyattr if t.has_own_wild or t.base is not None else t.anyattr
+        if w: s += '%s<xs:anyAttribute namespace="%s" processContents="%s"/>\n' % (ind, w[0], w[1])
         return s
     def ctype(self, t, ind, named=False):
         a = ''
@@ -340,7 +349,11 @@ class Renderer:
         if t.abstract: a += ' abstract="true"'
         if t.block: a += ' block="%s"' % t.block
         i2 = ind + '  '
-        if t.base is not None:
+        if t.base is not None and isinstance(t.content, tuple):
+            own = t.own_attrs if t.own_attrs is not None else []
+            inner = '%s<xs:simpleContent>\n%s  <xs:%s base="%s">\n%s%s  </xs:%s>\n%s</xs:simpleContent>\n' % (
+                i2, i2, t.deriv, self.qn(t.base.tns, t.base.name), self.attrs(t, i2 + '    ', own), i2, t.deriv, i2)
+        elif t.base is not None:
             own = t.own_attrs if t.own_attrs is not None else []
             if t.deriv == 'extension':
                 body = (self.particle(t.ext_particle, i2 + '    ') if t.ext_particle is not None else '')
@@ -368,6 +381,7 @@ class Renderer:
         for t in s.includes:
             out += '  <xs:include schemaLocation="%s"/>\n' % t.sysid
         for name in sorted(s.groups): out += self.group_def(name, s.groups[name])
+        for a in s.gattrs: out += '  <xs:attribute name="%s" type="xs:%s"/>\n' % (a.name, a.tname)
         for t in s.types: out += self.ctype(t, '  ', True)
         for e in s.elements: out += self.elem(e)
         return out + '</xs:schema>\n'
@@ -583,7 +597,17 @@ class Oracle:
             else:
                 t2 = self.schema.find_type(tns_, tn)
                 if t2 is None: tags.add('xsitype-unknown')
-                elif isinstance(typ, str) or not t2.derives_from(typ): tags.add('xsitype-notderived')
+                elif isinstance(typ, str):
+                    # complex type with simple content whose derivation starts at a built-in: validly derived from the declared simple type
+                    # iff that built-in is (derived from) the declared one
+                    root = t2; methods = {'extension'}
+                    while root.base is not None: methods.add(root.deriv); root = root.base
+                    sb = root.content[1] if isinstance(root.content, tuple) else None
+                    if sb is not None and (sb == typ or (sb, typ) == ('int', 'decimal')):
+                        if methods & block_set(d.block): tags.add('xsitype-blocked')
+                        typ = t2
+                    else: tags.add('xsitype-notderived')
+                elif not t2.derives_from(typ): tags.add('xsitype-notderived')
                 else:
                     # block on the declared type / element declaration
                     blocked = set(d.block.split()) | set(typ.block.split())
@@ -631,7 +655,12 @@ class Oracle:
             if k in seen: continue
             if any(a.key() == k and a.use == 'prohibited' for a in typ.attrs): continue
             if typ.anyattr and wildcard_allows(typ.anyattr[0], self.tns_of_type.get(id(typ), tns), k[0]):
-                if typ.anyattr[1] == 'strict': tags.add('attr-strict-undeclared')    # no global attribute declarations are generated
+                pc = typ.anyattr[1]
+                if pc == 'skip': continue
+                ga = self.schema.find_global_attr(k)
+                if ga is not None:
+                    if not simple_valid(ga.tname, node.attrs[k]): tags.add('attr-datatype')
+                elif pc == 'strict': tags.add('attr-strict-undeclared')
                 continue
             tags.add('attr-undeclared')
         if nil: return
@@ -989,6 +1018,33 @@ def mutate_sequence(draw, seq, alphabet, foreign):
 # ==================================================================================================
 # 7. deep lane: derivation by extension/restriction, xsi:type, xsi:nil, abstract/block, imports, value constraints
 # ==================================================================================================
+PC_RANK = {'skip': 0, 'lax': 1, 'strict': 2}
+AW_CHOICES = ['##any', '##other', OTHER_NS, OTHER_NS + ' urn:o2', '##local ' + OTHER_NS, '##targetNamespace urn:o2']
+
+def aw_union(base, own):
+    """{attribute wildcard} of an extension (3.4.2 / cos-aw-union): only the unions with one reading are produced, else None"""
+    if base is None: return own
+    if own is None: return base
+    b, o = base[0], own[0]
+    if b == '##any' or o == '##any': return ('##any', own[1])
+    if b == '##other' or o == '##other':
+        other = o if b == '##other' else b
+        if other == '##other' or not any(tok.startswith('##') for tok in other.split()): return ('##other', own[1])
+        return None            # not(tns) united with a set naming ##local / ##targetNamespace: errata territory, not generated
+    toks = []
+    for tok in (b + ' ' + o).split():
+        if tok not in toks: toks.append(tok)
+    return (' '.join(toks), own[1])
+
+def aw_subsets(base, tns):
+    """lexical namespace constraints that are subsets of the base's (cos-ns-subset), for a restriction that redeclares its wildcard"""
+    b = base[0]
+    foreign = [OTHER_NS, OTHER_NS + ' urn:o2', 'urn:o2']
+    if b == '##any': return AW_CHOICES
+    if b == '##other': return ['##other'] + [f for f in foreign if tns not in f.split()]
+    toks = b.split()
+    return [b] + ([toks[0]] if len(toks) > 1 else []) + ([toks[1]] if len(toks) > 1 else [])
+
 def copy_particle(p):
     q = Particle(p.k, p.mn, p.mx, [copy_particle(c) for c in p.ch], p.decl, p.nsc, p.pc, p.named)
     return q
@@ -1005,6 +1061,7 @@ def gen_deep_schema(draw):
         wt = draw(st.sampled_from(['int', 'string', 'ct']))
         if wt == 'ct': wt = CType(content=Particle('seq', 1, 1, [Particle('e', 1, 2, decl=ElemDecl('k', OTHER_NS, 'int'))]), attrs=[AttrUse('x', 'boolean', 'required')])
         imp.elements.append(ElemDecl('w', OTHER_NS, wt, is_global=True))
+        imp.gattrs.append(AttrUse('ga', 'int'))
         s.imports.append(imp)
     occs = [(1, 1), (0, 1), (0, 3), (1, 3), (2, 4), (0, INF), (1, INF), (2, 2)]
     def leaf(name, typ=None, occ=None, **kw):
@@ -1039,10 +1096,33 @@ def gen_deep_schema(draw):
     rp = AttrUse('p', p_attr.tname, ruse, default=(p_attr.default if ruse == 'optional' else None))
     R = CType('R', Particle('seq', 1, 1, rl), attrs=[rp] + B.attrs[1:], base=B, deriv='restriction')
     R.own_attrs = [rp]; s.add_type(R)
+    # attribute wildcards: B declares one; E (extension) unites its own with B's; R (restriction) keeps ONLY what it redeclares
+    pcs = ['skip', 'skip', 'lax', 'strict']
+    if draw(st.integers(0, 2)) > 0:
+        B.anyattr = (draw(st.sampled_from(AW_CHOICES)), draw(st.sampled_from(pcs)))
+    eo = (draw(st.sampled_from(AW_CHOICES)), draw(st.sampled_from(pcs))) if draw(st.integers(0, 2)) == 0 else None
+    if eo is not None and aw_union(B.anyattr, eo) is None: eo = ('##other', eo[1])
+    E.own_anyattr = eo; E.has_own_wild = eo is not None; E.anyattr = aw_union(B.anyattr, eo)
+    ro = None
+    if B.anyattr is not None and draw(st.booleans()):
+        ro = (draw(st.sampled_from(aw_subsets(B.anyattr, tns))), draw(st.sampled_from([p for p in PC_RANK if PC_RANK[p] >= PC_RANK[B.anyattr[1]]])))
+    R.own_anyattr = ro; R.has_own_wild = ro is not None; R.anyattr = ro
+    # a prohibited use next to a wildcard that admits the attribute's (absent) namespace has two readings: not generated
+    if rp.use == 'prohibited' and any(w is not None and wildcard_allows(w[0], tns, '') for w in (B.anyattr, R.anyattr)):
+        rp.use = 'required'; rp.default = None
     # E2: extension of E (two derivation steps)
     ext2 = Particle('seq', 1, 1, [leaf('d', occ=(0, 1))])
     E2 = CType('E2', Particle('seq', 1, 1, [E.content, ext2]), attrs=list(E.attrs), base=E, deriv='extension', ext_particle=ext2)
-    E2.own_attrs = []; s.add_type(E2)
+    E2.own_attrs = []; E2.anyattr = E.anyattr; s.add_type(E2)
+    # simple-content chain: SB (extension of a built-in with a wildcard), SN (restriction of SB without / with a narrower wildcard)
+    SB = CType('SB', ('simple', draw(st.sampled_from(['string', 'int']))), attrs=[AttrUse('k', 'string', 'optional')]); s.add_type(SB)
+    if draw(st.integers(0, 3)) > 0: SB.anyattr = (draw(st.sampled_from(AW_CHOICES)), draw(st.sampled_from(pcs)))
+    SN = CType('SN', SB.content, attrs=list(SB.attrs), base=SB, deriv='restriction'); SN.own_attrs = []
+    so = None
+    if SB.anyattr is not None and draw(st.integers(0, 2)) == 0:
+        so = (draw(st.sampled_from(aw_subsets(SB.anyattr, tns))), draw(st.sampled_from([p for p in PC_RANK if PC_RANK[p] >= PC_RANK[SB.anyattr[1]]])))
+    SN.own_anyattr = so; SN.has_own_wild = so is not None; SN.anyattr = so
+    s.add_type(SN)
     # U: unrelated type
     U = CType('U', Particle('seq', 1, 1, [leaf('u', occ=(0, 1))])); s.add_type(U)
     # root
@@ -1054,6 +1134,7 @@ def gen_deep_schema(draw):
     if vc == 1: y.default = lit
     elif vc == 2: y.fixed = lit
     parts = [Particle('e', *draw(st.sampled_from([(1, 1), (1, 3), (0, 2)])), decl=x), Particle('e', *draw(st.sampled_from([(0, 1), (1, 1), (0, 2)])), decl=y)]
+    parts.append(Particle('e', *draw(st.sampled_from([(0, 1), (0, 2), (1, 1)])), decl=ElemDecl('z', lns, draw(st.sampled_from([SB, SB, SN])))))
     if imp is not None:
         if draw(st.booleans()): parts.append(Particle('e', *draw(st.sampled_from([(0, 1), (1, 2)])), decl=imp.elements[0]))
         else: parts.append(Particle('any', *draw(st.sampled_from([(0, 1), (1, 2), (0, INF)])), nsc='##other' if tns else OTHER_NS, pc=draw(st.sampled_from(['strict', 'lax', 'skip']))))
@@ -1087,6 +1168,16 @@ def fill_deep(oracle, n, d, draw, depth=0):
     for a in typ.attrs:
         if a.use == 'required' or (a.use == 'optional' and draw(st.booleans())):
             n.attrs[a.key()] = a.fixed if a.fixed is not None else draw(st.sampled_from(SIMPLE_OK[a.tname]))
+    # attributes only a wildcard can admit: mostly ones the governing type's effective wildcard admits, sometimes ones only the BASE type's
+    # wildcard admits (a restriction keeps just the wildcard it redeclares), rarely an arbitrary one; the verdict always comes from the oracle
+    cands = WILD_ATTRS + ([(oracle.schema.tns, 'ta')] if oracle.schema.tns else [])
+    r = draw(st.integers(0, 7)); pool = []
+    if r <= 1 and typ.anyattr: pool = [k for k in cands if wildcard_allows(typ.anyattr[0], typ.tns, k[0])]
+    elif r == 2 and typ.base is not None and typ.base.anyattr: pool = [k for k in cands if wildcard_allows(typ.base.anyattr[0], typ.tns, k[0])]
+    elif r == 3 and draw(st.integers(0, 2)) == 0: pool = cands
+    if pool:
+        k = draw(st.sampled_from(pool))
+        if k[1] not in [a[1] for a in n.attrs]: n.attrs[k] = draw(st.sampled_from(['5', '5', 'x']))
     c = typ.content
     if isinstance(c, tuple): n.children = [draw(st.sampled_from(SIMPLE_OK[c[1]]))]; return
     if c is None: return
@@ -1101,7 +1192,8 @@ def fill_deep(oracle, n, d, draw, depth=0):
                 if g is not None: fill_deep(oracle, ch, g, draw, depth + 1)
         n.children.append(ch)
 
-DEEP_MUTATIONS = ['xsitype-unknown', 'xsitype-unrelated', 'xsitype-derived', 'xsitype-drop', 'nil-true', 'nil-true-content', 'nil-false', 'drop-attr', 'add-attr',
+WILD_ATTRS = [(OTHER_NS, 'ga'), (OTHER_NS, 'fa'), ('urn:o2', 'fb'), ('', 'zz')]
+DEEP_MUTATIONS = ['add-wild-attr', 'add-wild-attr', 'xsitype-unknown', 'xsitype-unrelated', 'xsitype-derived', 'xsitype-drop', 'nil-true', 'nil-true-content', 'nil-false', 'drop-attr', 'add-attr',
                   'bad-attr-value', 'bad-text', 'add-child', 'drop-child', 'dup-child', 'swap-ns', 'text-in-eo', 'wild-undeclared', 'clear-text']
 
 def all_nodes(n, out=None):
@@ -1118,13 +1210,16 @@ def mutate_deep(draw, schema, root):
     parents = [p for p in nodes if p.elems()]
     if kind == 'xsitype-unknown': n.xsi_type = (schema.tns, 'Nope')
     elif kind == 'xsitype-unrelated': n.xsi_type = (schema.tns, 'U')
-    elif kind == 'xsitype-derived': n.xsi_type = (schema.tns, draw(st.sampled_from(['E', 'R', 'E2', 'B'])))
+    elif kind == 'xsitype-derived': n.xsi_type = (schema.tns, draw(st.sampled_from(['E', 'R', 'E2', 'B', 'SN', 'SB'])))
     elif kind == 'xsitype-drop': n.xsi_type = None
     elif kind == 'nil-true': n.xsi_nil = 'true'; n.children = []
     elif kind == 'nil-true-content': n.xsi_nil = 'true'; n.children = n.children or ['1']
     elif kind == 'nil-false': n.xsi_nil = 'false'
     elif kind == 'drop-attr' and n.attrs: del n.attrs[draw(st.sampled_from(sorted(n.attrs)))]
     elif kind == 'add-attr': n.attrs[draw(st.sampled_from([('', 'p'), ('', 'q'), ('', 's'), ('', 'zz'), (OTHER_NS, 'p')]))] = draw(st.sampled_from(['1', 'true', 'x']))
+    elif kind == 'add-wild-attr':
+        k = draw(st.sampled_from(WILD_ATTRS + ([(schema.tns, 'ta')] if schema.tns else [])))
+        if k[1] not in [a[1] for a in n.attrs]: n.attrs[k] = draw(st.sampled_from(['5', '5', 'x']))
     elif kind == 'bad-attr-value' and n.attrs: n.attrs[draw(st.sampled_from(sorted(n.attrs)))] = draw(st.sampled_from(['x y', '1.5', '']))
     elif kind == 'bad-text': n.children = [c for c in n.children if isinstance(c, Node)] + [draw(st.sampled_from(['zz', '1.5', 'tru']))]
     elif kind == 'clear-text': n.children = [c for c in n.children if isinstance(c, Node)]
